@@ -17,6 +17,28 @@ import collections
 from vf.mon import ops
 
 
+def _dummy_for_pattern(names):
+  """A placeholder item that unpacks into the loop's target pattern (given as text in iterate_names)."""
+  import ast
+
+  def build(t):
+    if isinstance(t, (ast.Tuple, ast.List)):
+      out = []
+      for e in t.elts:
+        if isinstance(e, ast.Starred):
+          out.extend([0, 0])
+        else:
+          out.append(build(e))
+      return tuple(out)
+    return 0
+
+  try:
+    tgt = ast.parse('%s = None' % names).body[0].targets[0]
+  except SyntaxError:
+    return 0
+  return build(tgt)
+
+
 class TracingBackend(object):
 
   def __init__(self):
@@ -96,11 +118,10 @@ class TracingBackend(object):
     init = get_state()
     items = list(iter_)
     names = str(opts.get('iterate_names', 'i'))
-    arity = len([x for x in names.replace('(', ' ').replace(')', ' ').replace('[', ' ').replace(']', ' ').split(',') if x.strip()])
     if items:
       dummy = items[0]
     else:
-      dummy = 0 if arity <= 1 else tuple(0 for _ in range(arity))
+      dummy = _dummy_for_pattern(names)
       self.counters['zero_trip_for_traced'] += 1
     if extra_test is not None:
       extra_test()
